@@ -11,8 +11,10 @@ import (
 	"encoding/binary"
 	"encoding/hex"
 	"fmt"
+	"github.com/pebbe/zmq4"
 	"hash/fnv"
 	"math"
+	"os"
 	"testing"
 	"time"
 
@@ -348,6 +350,236 @@ func v14CheckSummary(x *vexp.X, rec *DataRecord, wantNs int64) vexp.Result {
 	return res
 }
 
+// ---------------------------------------------------------------------------------------------
+// socket family: batches of records through the real startSocket goroutine and a real ZMQ PUB socket to a SUB
+// client; every record must arrive as its own two-frame message, in order, and decode to itself.
+
+type v14Sock struct {
+	pub  chan []*DataRecord
+	sub  *zmq4.Socket
+	seq  int64
+	kind string
+}
+
+var v14Socks = map[string]*v14Sock{}
+var v14Ctx *zmq4.Context
+
+func v14Infra(f string, a ...interface{}) {
+	fmt.Fprintf(os.Stderr, "VERIF-INFRA C14 socket family: "+f+"\n", a...)
+	os.Exit(3)
+}
+
+func v14GetSock(kind string) *v14Sock {
+	if s := v14Socks[kind]; s != nil {
+		return s
+	}
+	var i, n int
+	fmt.Sscanf(os.Getenv("VERIF_SHARD"), "%d/%d", &i, &n)
+	port := 16500 + 2*i
+	conv := messageRecords
+	if kind == "summaries" {
+		port++
+		conv = messageSummaries
+	}
+	pub, err := startSocket(port, conv)
+	if err != nil {
+		v14Infra("startSocket(%d): %v", port, err)
+	}
+	if v14Ctx == nil {
+		ctx, err := zmq4.NewContext()
+		if err != nil {
+			v14Infra("zmq context: %v", err)
+		}
+		ctx.SetRetryAfterEINTR(true)
+		v14Ctx = ctx
+	}
+	sub, err := v14Ctx.NewSocket(zmq4.SUB)
+	if err != nil {
+		v14Infra("SUB socket: %v", err)
+	}
+	sub.SetRcvhwm(0)
+	sub.SetLinger(0)
+	sub.SetSubscribe("")
+	if err := sub.Connect(fmt.Sprintf("tcp://127.0.0.1:%d", port)); err != nil {
+		v14Infra("connect: %v", err)
+	}
+	s := &v14Sock{pub: pub, sub: sub, kind: kind}
+	// slow joiner: single-record batches until one gets through, then a marker
+	t0 := time.Now()
+	for {
+		s.seq++
+		pub <- []*DataRecord{{channelIndex: 65535, trigFrame: FrameIndex(-s.seq), trigTime: vT0, data: []RawType{}}}
+		sub.SetRcvtimeo(20 * time.Millisecond)
+		if _, err := sub.RecvMessageBytes(0); err == nil {
+			break
+		}
+		if time.Since(t0) > 30*time.Second {
+			v14Infra("the SUB socket never saw a message on port %d", port)
+		}
+	}
+	v14Socks[kind] = s
+	s.drainTo(s.marker())
+	return s
+}
+
+// marker publishes a single-record batch with a unique negative frame number and returns that number
+func (s *v14Sock) marker() int64 {
+	s.seq++
+	s.pub <- []*DataRecord{{channelIndex: 65535, trigFrame: FrameIndex(-s.seq), trigTime: vT0, data: []RawType{}}}
+	return -s.seq
+}
+
+func v14FrameOf(kind string, parts [][]byte) (int64, bool) {
+	off := 28
+	if kind == "summaries" {
+		off = 40
+	}
+	if len(parts) < 1 || len(parts[0]) < off+8 {
+		return 0, false
+	}
+	return int64(binary.LittleEndian.Uint64(parts[0][off:])), true
+}
+
+// drainTo receives messages until the marker arrives and returns the ones before it. dastard's publisher drops
+// a message when zmq_send is interrupted by a signal (it logs "zmq send error" and goes on; the Go runtime sends
+// signals): a marker that does not arrive within 2 s is therefore sent again.
+func (s *v14Sock) drainTo(mark int64) [][][]byte {
+	var msgs [][][]byte
+	marks := map[int64]bool{mark: true}
+	s.sub.SetRcvtimeo(2 * time.Second)
+	for tries := 0; ; {
+		parts, err := s.sub.RecvMessageBytes(0)
+		if err != nil {
+			tries++
+			if tries > 15 {
+				v14Infra("%s: no marker received after %d attempts (%d messages before it): %v", s.kind, tries, len(msgs), err)
+			}
+			marks[s.marker()] = true
+			continue
+		}
+		if f, ok := v14FrameOf(s.kind, parts); ok && len(parts) == 2 && f < 0 {
+			if marks[f] {
+				return msgs
+			}
+			continue // a marker of an earlier execution that arrived late
+		}
+		msgs = append(msgs, parts)
+	}
+}
+
+// v14SocketBody: a message lost on the way (see drainTo) makes the attempt inconclusive and it is repeated; what is
+// judged is an attempt in which every message arrived, or any attempt with a malformed message.
+func v14SocketBody(x *vexp.X, kind string) vexp.Result {
+	var recorded []int
+	pos := 0
+	pick := func(n int) int {
+		if pos < len(recorded) { // a further attempt replays the choices of the first
+			pos++
+			return recorded[pos-1]
+		}
+		c := x.Choose(n)
+		recorded = append(recorded, c)
+		pos++
+		return c
+	}
+	var res vexp.Result
+	for attempt := 0; attempt < 6; attempt++ {
+		var lost bool
+		pos = 0
+		res, lost = v14SocketAttempt(x, kind, pick)
+		if !lost {
+			return res
+		}
+	}
+	return res
+}
+
+func v14SocketAttempt(x *vexp.X, kind string, pick func(int) int) (vexp.Result, bool) {
+	s := v14GetSock(kind)
+	nb := 1 + pick(2)
+	var want []*DataRecord
+	var batches [][]*DataRecord
+	tag := int64(1000)
+	for b := 0; b < nb; b++ {
+		n := 1 + pick(3)
+		var batch []*DataRecord
+		for i := 0; i < n; i++ {
+			ch := []int{0, 1, 256}[pick(3)]
+			tag++
+			rec := &DataRecord{channelIndex: ch, signed: ch == 1, presamples: 1, data: v14Samples(1, 3+i), sampPeriod: 1e-3, voltsPerArb: 0.5,
+				trigTime: vT0.Add(time.Duration(tag) * time.Microsecond), trigFrame: FrameIndex(tag), modelCoefs: []float64{float64(tag), -1.5}}
+			batch = append(batch, rec)
+			want = append(want, rec)
+		}
+		batches = append(batches, batch)
+	}
+	for _, b := range batches {
+		s.pub <- b
+	}
+	x.Steps = len(want)
+	msgs := s.drainTo(s.marker())
+	desc := fmt.Sprintf("%s port: batches of sizes %v", kind, func() []int {
+		var z []int
+		for _, b := range batches {
+			z = append(z, len(b))
+		}
+		return z
+	}())
+	res := vexp.Result{Nontrivial: len(want) > 1, Outcome: fmt.Sprintf("%s %d records -> %d messages", kind, len(want), len(msgs))}
+	bad := func(class, f string, a ...interface{}) (vexp.Result, bool) {
+		res.Violation, res.Class = desc+": "+fmt.Sprintf(f, a...), class
+		return res, false
+	}
+	for i, m := range msgs {
+		if len(m) != 2 {
+			return bad("c14-sock-frames", "message %d on the wire has %d frames, every record is documented as one two-frame message (%d records published, %d messages received)", i, len(m), len(want), len(msgs))
+		}
+	}
+	if len(msgs) < len(want) {
+		// fewer well-formed messages than records: a send was interrupted (or records are being dropped: then
+		// every attempt ends here and the last one is reported)
+		res.Violation, res.Class = desc+fmt.Sprintf(": %d records published, only %d messages received in each of 6 attempts", len(want), len(msgs)), "c14-sock-count"
+		return res, true
+	}
+	if len(msgs) != len(want) {
+		return bad("c14-sock-count", "%d records published, %d messages received", len(want), len(msgs))
+	}
+	for i, m := range msgs {
+		rec := want[i]
+		wantNs := rec.trigTime.UnixNano()
+		var r vexp.Result
+		if f, _ := v14FrameOf(kind, m); f != int64(rec.trigFrame) {
+			return bad("c14-sock-order", "message %d carries frame %d, record %d published has frame %d", i, f, i, rec.trigFrame)
+		}
+		if kind == "summaries" {
+			mm, cls, what := v14DecodeSummary(m)
+			if cls != "" {
+				return bad(cls, "message %d: %s", i, what)
+			}
+			if int(mm.channel) != rec.channelIndex || mm.timeNs != wantNs || len(mm.coefs) != len(rec.modelCoefs) || !v14Same64(mm.coefs[0], rec.modelCoefs[0]) {
+				return bad("c14-sock-content", "message %d decodes to %+v, record is channel %d time %d coefs %v", i, *mm, rec.channelIndex, wantNs, rec.modelCoefs)
+			}
+		} else {
+			mm, cls, what := v14DecodeRecord(m)
+			if cls != "" {
+				return bad(cls, "message %d: %s", i, what)
+			}
+			same := int(mm.channel) == rec.channelIndex && mm.timeNs == wantNs && len(mm.samples) == len(rec.data)
+			for j := 0; same && j < len(mm.samples); j++ {
+				same = mm.samples[j] == uint16(rec.data[j])
+			}
+			if !same {
+				return bad("c14-sock-content", "message %d decodes to %+v, record is channel %d time %d samples %v", i, *mm, rec.channelIndex, wantNs, rec.data)
+			}
+		}
+		if m[0][0] != byte(rec.channelIndex) || m[0][1] != byte(rec.channelIndex>>8) {
+			return bad("c14-sock-subscription-prefix", "message %d starts with % x, channel is %d", i, m[0][:2], rec.channelIndex)
+		}
+		_ = r
+	}
+	return res, false
+}
+
 func TestVerifC14(t *testing.T) {
 	r := vexp.NewRunner("C14")
 	defer r.Finish()
@@ -365,8 +597,13 @@ func TestVerifC14(t *testing.T) {
 	coefSets := v14CoefSets()
 	r.SetBound(fmt.Sprintf("records: channel {0,1,255,256,65535} x signed x presamples {0,1,5} x length %v x 3 sample patterns x 7 sample periods x 7 volts-per-arb (zero, -0, denormal, max, +-Inf, NaN) "+
 		"x 3 trigger times (1971, 2026 in a +7h zone, 2200) x 5 frame numbers (0,1,2^40,2^63-1,-1); summaries: the same channels, presamples, lengths, times and frames "+
-		"x %d values (NaN, +-Inf, 0, exact and inexact float32) for each of the 5 analysis fields x coefficient sets of 0,1,2,3,64 float64 (incl. NaN, -0, Inf, 1e300, denormal)", lens, len(analysis)))
+		"x %d values (NaN, +-Inf, 0, exact and inexact float32) for each of the 5 analysis fields x coefficient sets of 0,1,2,3,64 float64 (incl. NaN, -0, Inf, 1e300, denormal); socket family: 1-2 batches of 1-3 records over channels {0,1,256} through the real startSocket goroutine and ZMQ PUB socket "+
+		"(pulse-record and summary converters) to a SUB client", lens, len(analysis)))
 
+	for _, kind := range []string{"records", "summaries"} {
+		kind := kind
+		r.DFS("socket/"+kind, -1, func(x *vexp.X) vexp.Result { return v14SocketBody(x, kind) })
+	}
 	for _, ch := range v14Channels {
 		ch := ch
 		for _, signed := range []bool{false, true} {
